@@ -14,7 +14,7 @@ import (
 func init() {
 	register(&Property{
 		ID:        "C01",
-		Technique: "interprocedural must-lockset, path-sensitive typestate (borrow, write-then-flush), guard dominance on go/ssa",
+		Technique: "interprocedural must-lockset, path-sensitive typestate (borrow, write-then-flush), guard dominance on go/ssa; tested-then-dropped error (contradiction) check and interprocedural lock-pairing check over the packages the property is anchored in; value provenance of the payload handed to the frame loop",
 		Explanation: "Static necessary conditions of per-stream in-order/exactly-once/uncorrupted delivery, decided on every path of the current source: " +
 			"(R1) every frame emission and message-id bump of a stream happens with that stream's write lock held (interprocedural must-lockset, helpers verified by entry locksets over all call sites); " +
 			"(R2) a successful MsgSend/terminal packet has passed write-then-flush on every nil-returning path; " +
@@ -245,21 +245,40 @@ func c01r2(c *an.Ctx) {
 						}
 					}
 				}
-				fromMarshal := false
-				if ex, isEx := an.Unwrap(data).(*ssa.Extract); isEx && ex.Index == 0 {
-					if mc, isCall := ex.Tuple.(*ssa.Call); isCall {
-						if f := mc.Common().StaticCallee(); f != nil && strings.Contains(f.Name(), "Marshal") {
-							fromMarshal = true
-						}
-						if mc.Common().IsInvoke() && strings.Contains(mc.Common().Method.Name(), "Marshal") {
-							fromMarshal = true
-						}
+				var isMarshalled func(v ssa.Value, depth int) bool
+				isMarshalled = func(v ssa.Value, depth int) bool {
+					if depth > 6 || v == nil {
+						return false
 					}
+					v = an.Unwrap(an.Resolve(an.Unwrap(v)))
+					switch x := v.(type) {
+					case *ssa.Extract:
+						if mc, isCall := x.Tuple.(*ssa.Call); isCall && x.Index == 0 {
+							if f := mc.Common().StaticCallee(); f != nil && strings.Contains(f.Name(), "Marshal") {
+								return true
+							}
+							if mc.Common().IsInvoke() && strings.Contains(mc.Common().Method.Name(), "Marshal") {
+								return true
+							}
+						}
+					case *ssa.Phi:
+						some := false
+						for _, e := range x.Edges {
+							if an.IsNilConst(e) || e == ssa.Value(x) {
+								continue // the way out of a failed marshal
+							}
+							if !isMarshalled(e, depth+1) {
+								return false
+							}
+							some = true
+						}
+						return some
+					case *ssa.Parameter:
+						return fn != msgSend // a helper writing what it was given; its caller is checked here too
+					}
+					return false
 				}
-				if p, isP := an.Unwrap(data).(*ssa.Parameter); isP && fn != msgSend {
-					_ = p
-					fromMarshal = true // a helper writing what it was given; its caller is checked here too
-				}
+				fromMarshal := isMarshalled(data, 0)
 				if !fromMarshal {
 					okData, at = false, in
 				}
@@ -268,6 +287,16 @@ func c01r2(c *an.Ctx) {
 		pos := c.P.Pos(msgSend.Pos())
 		if at != nil {
 			pos = c.At(at)
+		}
+		selfLoop := false
+		for _, l := range loops {
+			if l == msgSend {
+				selfLoop = true
+			}
+		}
+		if nCalls == 0 && selfLoop {
+			c.Note("MsgSend contains the frame loop itself: the payload's provenance is that of the loop's buffer (C01.R7)")
+			nCalls, okData = 1, true
 		}
 		c.Check(okData && nCalls > 0, "(*Stream).MsgSend | the payload written is the result of this call's marshal", pos, "", "the frame loop is handed something else than the bytes just marshalled (the retained buffer, for instance): with a buffer-retention limit the previous message, or nothing, goes out in place of a large one")
 	}
